@@ -177,7 +177,7 @@ def revcomp_rules(ctx):
     if not src:
         src = [lid for lid, b in fv.binds.items() if b["mut"] and b["val"] == ("param", kp)]
         muts.update({lid: fv.binds[lid] for lid in src})
-    acc = [lid for lid, b in muts.items() if fv.term(b["val"][1]) == L(0)]
+    acc = [lid for lid, b in muts.items() if b["val"][0] == "node" and fv.term(b["val"][1]) == L(0)]
     if loop is None or len(src) != 1 or len(acc) != 1:
         ctx.fail("C02.S1", "rev_comp:shape", "expected one accumulator starting at 0, one working copy of the "
                  "argument and one loop", fv.fn["sp"])
